@@ -126,7 +126,13 @@ pub struct RunStats<C> {
     pub distinct_outcomes: u64,
     pub classes: std::collections::BTreeMap<String, u64>,
     pub violations_total: u64,
+    /// violations no known finding matches (exact count) and a bounded set of witnesses
+    pub unknown_total: u64,
     pub violations: Vec<Violation<C>>,
+    /// exact number of violations matched per known finding
+    pub known: std::collections::BTreeMap<String, u64>,
+    /// unlisted violations per kind of failure (family|site|what)
+    pub buckets: std::collections::BTreeMap<String, u64>,
     pub samples: Vec<serde_json::Value>,
     pub caps_hit: Vec<String>,
     pub calculators_built: u64,
@@ -151,7 +157,8 @@ fn h64<T: Hash + ?Sized>(t: &T) -> u64 {
     h.finish()
 }
 
-pub const MAX_STORED_VIOLATIONS: usize = 400;
+pub const MAX_STORED_VIOLATIONS: usize = 4000;
+pub const PER_BUCKET: u64 = 30;
 
 /// In-flight slot per worker for the watchdog: (start time, description).
 pub struct Flight {
@@ -183,6 +190,8 @@ pub fn run<C, X>(
     built: impl Fn(&X) -> u64 + Sync,
     to_json: impl Fn(&C) -> serde_json::Value + Sync,
     on_hang: impl Fn(&str) + Sync,
+    // known-finding matcher, applied to every violation when it is found: Some(finding id)
+    classify: impl Fn(&Violation<C>) -> Option<String> + Sync,
 ) -> RunStats<C>
 where
     C: Send + Clone + 'static,
@@ -194,6 +203,9 @@ where
     let violations_total = AtomicU64::new(0);
     let calculators = AtomicU64::new(0);
     let violations: Mutex<Vec<Violation<C>>> = Mutex::new(Vec::new());
+    let known: Mutex<std::collections::BTreeMap<String, u64>> = Mutex::new(Default::default());
+    let unknown_total = AtomicU64::new(0);
+    let buckets: Mutex<std::collections::HashMap<String, u64>> = Mutex::new(Default::default());
     let inputs: Mutex<HashSet<u64>> = Mutex::new(HashSet::new());
     let inputs_cmp: Mutex<HashSet<u64>> = Mutex::new(HashSet::new());
     let outcomes: Mutex<HashSet<u64>> = Mutex::new(HashSet::new());
@@ -242,6 +254,10 @@ where
                     let compared = &compared;
                     let violations_total = &violations_total;
                     let violations = &violations;
+                    let known = &known;
+                    let unknown_total = &unknown_total;
+                    let buckets = &buckets;
+                    let classify = &classify;
                     let inputs = &inputs;
                     let inputs_cmp = &inputs_cmp;
                     let outcomes = &outcomes;
@@ -292,9 +308,29 @@ where
                                     }
                                     if v.violation.is_some() {
                                         violations_total.fetch_add(1, Ordering::Relaxed);
-                                        let mut g = violations.lock().unwrap();
-                                        if g.len() < MAX_STORED_VIOLATIONS {
-                                            g.push(Violation { family: fam_name.clone(), case: case.clone(), verdict: v });
+                                        let viol = Violation { family: fam_name.clone(), case: case.clone(), verdict: v };
+                                        match classify(&viol) {
+                                            Some(fid) => {
+                                                *known.lock().unwrap().entry(fid).or_insert(0) += 1;
+                                            }
+                                            None => {
+                                                unknown_total.fetch_add(1, Ordering::Relaxed);
+                                                // keep a bounded number of witnesses per kind of failure
+                                                let what = viol.verdict.violation.clone().unwrap_or_default();
+                                                let sig = format!("{}|{}|{}", viol.family, viol.verdict.site.clone().unwrap_or_default(), what.split(':').next().unwrap_or(""));
+                                                let n = {
+                                                    let mut b = buckets.lock().unwrap();
+                                                    let e = b.entry(sig).or_insert(0);
+                                                    *e += 1;
+                                                    *e
+                                                };
+                                                if n <= PER_BUCKET {
+                                                    let mut g = violations.lock().unwrap();
+                                                    if g.len() < MAX_STORED_VIOLATIONS {
+                                                        g.push(viol);
+                                                    }
+                                                }
+                                            }
                                         }
                                     }
                                 }
@@ -390,7 +426,10 @@ where
         distinct_outcomes: outcomes.into_inner().unwrap().len() as u64,
         classes: classes.into_inner().unwrap(),
         violations_total: violations_total.into_inner(),
+        unknown_total: unknown_total.into_inner(),
         violations,
+        known: known.into_inner().unwrap(),
+        buckets: buckets.into_inner().unwrap().into_iter().collect(),
         samples: samples.into_iter().map(|(_, v)| v).collect(),
         caps_hit,
         calculators_built: calculators.into_inner(),
